@@ -11,11 +11,13 @@ def cubes(tier):
         out += [dict(nops=2, query="single", name="sha256")]
         out += [dict(nops=1, query="single", variant=v) for v in VARIANTS]
         out += [dict(nops=1, query=q, variant=v) for v in ("other-alg", "newer-version", "legacy") for q in ("many", "build")]
+        out += [dict(nops=1, query="race")]  # the file is rewritten between hash_file's read and its state save
         return out
     out = [dict(nops=3, query=q, op1=o, _w=3) for q in QUERIES for o in range(5)]
     out += [dict(nops=3, query="many", limit=l, op1=o, _w=3) for l in (1, 3) for o in range(5)]
     out += [dict(nops=2, query=q, name=n) for q in ("single", "many") for n in ("sha256", "md5-dos2unix")]
     out += [dict(nops=2, query=q, variant=v) for v in VARIANTS for q in ("single", "many", "build", "md5")]
+    out += [dict(nops=2, query="race", name=n) for n in ("md5", "sha256", "md5-dos2unix")]
     return out
 
 
@@ -42,7 +44,7 @@ SPEC = Spec(
     assumptions=["every content mutation changes the file's size, modification time or inode relative to every state recorded earlier (as the property "
                  "states); inode numbers are not reused", "fsspec.utils.tokenize is a deterministic injective function of (ino, mtime, size)",
                  "SQLite returns what was stored"],
-    outside=["the real SQL engine and the literal 999 boundary", "races between reading stat information and hashing", "histories longer than 3 mutations"],
+    outside=["the real SQL engine and the literal 999 boundary", "races other than one rewrite between hash_file's read of the content and its state save (cube race)", "histories longer than 3 mutations"],
     explanation="CrossHair runs the real State/HashesCache/hash_file/_get_hashes/build/md5/update code on the model filesystem; the mutation history "
                 "(kind per step, content variant, whether an intermediate query happens) is symbolic; each mutation changes exactly one component "
                 "of the validity token, so dropping any component from the token is visible; every answer is compared with hashlib on the current bytes.",
